@@ -928,16 +928,24 @@ impl<'a> BTreeCursor<'a> {
             return Ok(true);
         }
 
-        let next = page.right_sibling();
-        if next.as_u64() == 0 {
-            self.slot = count;
-            return Ok(false);
-        }
+        // Deletes never merge pages, so a leaf in the middle of the chain can be empty; it must
+        // be stepped over, not taken for the end of the index.
+        let mut next = page.right_sibling();
+        loop {
+            if next.as_u64() == 0 {
+                self.slot = Page::new(&mut self.buf).cell_count() as u16;
+                return Ok(false);
+            }
 
-        self.leaf = next;
-        self.buf = self.pager.read_page(self.leaf)?;
-        self.slot = 0;
-        self.is_valid()
+            self.leaf = next;
+            self.buf = self.pager.read_page(self.leaf)?;
+            self.slot = 0;
+            let page = Page::new(&mut self.buf);
+            if page.cell_count() > 0 {
+                return Ok(true);
+            }
+            next = page.right_sibling();
+        }
     }
 }
 
